@@ -132,6 +132,9 @@ func DumpString(n *art.VerifNode) string {
 		if n.Key == nil && n.TransformKey == nil {
 			return fmt.Sprintf("leaf#%v", n.Value)
 		}
+		if len(n.TransformKey) > 160 {
+			return fmt.Sprintf("leaf(%q…%q (%d bytes)->%v)", n.TransformKey[:24], n.TransformKey[len(n.TransformKey)-8:], len(n.TransformKey), n.Value)
+		}
 		return fmt.Sprintf("leaf(%q->%v)", n.TransformKey, n.Value)
 	}
 	s := fmt.Sprintf("n%d{len=%d plen=%d p=%x keys=%x stale=%d:", []int{4, 16, 48, 256}[n.Kind], n.ChildrenLen, n.PrefixLen, n.Prefix, n.RawKeys, n.StaleSlots)
